@@ -166,6 +166,30 @@ Theorem supplied_statistics_equal_recomputed :
 Proof. exact materialize_supplied_equiv. Qed.
 Print Assumptions supplied_statistics_equal_recomputed.
 
+(* ---- "converting the dataset's own frame reproduces the dataset's TensorFrame": after materialize
+   (statistics recomputed or supplied) the mappers built from the FINAL statistics -- the ones
+   dataset.col_stats shows, EMB_DIM included -- together with the converter state the materialization
+   left behind map the dataset's own frame to exactly the dataset's TensorFrame ... *)
+Theorem own_frame_reproduces_tensor_frame :
+  forall cts seps target compute width supplied df st d tf,
+    materialize cts seps target compute width supplied df = Some (st, d, tf) ->
+    exists fits, fits_of cts seps st = Some fits /\ pcall fits target d df = Some (d, tf).
+Proof. exact own_frame_reproduced. Qed.
+Print Assumptions own_frame_reproduces_tensor_frame.
+
+(* ... and every non-empty selection / repetition / reordering of its rows to exactly the corresponding
+   rows of that TensorFrame (premises as in convert_row_local) *)
+Theorem own_frame_selection_gives_corresponding_rows :
+  forall cts seps target compute width supplied df st d tf idx df',
+    materialize cts seps target compute width supplied df = Some (st, d, tf) ->
+    idx <> [] -> pdf_select idx df = Some df' ->
+    (forall fits c col, fits_of cts seps st = Some fits -> df_col df c = Some col ->
+                        pipeline_ok fits c (df_index df) col) ->
+    exists fits tf', fits_of cts seps st = Some fits /\ tf_select idx tf = Some tf' /\
+                     pcall fits target d df' = Some (d, tf').
+Proof. exact own_frame_selection. Qed.
+Print Assumptions own_frame_selection_gives_corresponding_rows.
+
 (* ---- finite-domain facts over the table generated from /repo (case analysis on the nine
    stypes): merging is one level deep -- this is what makes the first call's rewrite a fixed point *)
 Theorem parent_of_parent_table : forall s, stype_parent (stype_parent s) = stype_parent s.
@@ -234,3 +258,21 @@ Example ex_empty_selection_raises :
   exists df', pdf_select [] ex_df = Some df' /\
               pcall ex_fits (Some "lab") (init_names ex_cts (Some "lab")) df' = None.
 Proof. eexists. split; [vm_compute; reflexivity|]. vm_compute. reflexivity. Qed.
+
+Example ex_materialize_then_own_frame :
+  let stats0 : stats :=
+    [("img", {| cs_keys := []; cs_cats := []; cs_emb := None |});
+     ("cat", {| cs_keys := [stat_COUNT]; cs_cats := [VStr [98%Z]; VStr [97%Z]]; cs_emb := None |});
+     ("emb", {| cs_keys := [stat_EMB_DIM]; cs_cats := []; cs_emb := Some 2%nat |});
+     ("txt", {| cs_keys := []; cs_cats := []; cs_emb := None |});
+     ("mul", {| cs_keys := [stat_MULTI_COUNT]; cs_cats := [VStr [120%Z]; VStr [121%Z]]; cs_emb := None |});
+     ("lab", {| cs_keys := [stat_COUNT]; cs_cats := [VInt 0; VInt 1]; cs_emb := None |})] in
+  exists st d tf fits,
+    materialize ex_cts [("mul", Some [124%Z])] (Some "lab") (fun _ => stats0) (fun _ => 1%nat) None ex_df = Some (st, d, tf) /\
+    fits_of ex_cts [("mul", Some [124%Z])] st = Some fits /\ fits = ex_fits /\
+    pcall fits (Some "lab") d ex_df = Some (d, tf) /\
+    option_map cs_emb (lookup st "txt") = Some (Some 1%nat).
+Proof.
+  do 4 eexists. split; [vm_compute; reflexivity|]. split; [vm_compute; reflexivity|].
+  split; [reflexivity|]. split; vm_compute; reflexivity.
+Qed.
